@@ -4,6 +4,7 @@
 package main
 
 import (
+	"os"
 	"bytes"
 	"fmt"
 	"io"
@@ -84,6 +85,7 @@ func init() {
 		carrier, k, sc := a[0].W, int(a[1].I), a[2].W
 		w, err := newE2E(carrier, nil)
 		if err != nil {
+			fmt.Fprintln(os.Stderr, "verifharness: scenario setup failed:", err)
 			return []Tok{TW("setup"), TW("err")}
 		}
 		defer w.close()
@@ -148,6 +150,7 @@ func init() {
 		var srv string
 		w, err := newE2E(carrier, func(target string) string { srv = target; return target })
 		if err != nil {
+			fmt.Fprintln(os.Stderr, "verifharness: scenario setup failed:", err)
 			return []Tok{TW("setup"), TW("err")}
 		}
 		defer w.close()
@@ -212,6 +215,7 @@ func init() {
 		carrier, n, closer := a[0].W, int(a[1].I), a[2].W
 		w, err := newE2E(carrier, nil)
 		if err != nil {
+			fmt.Fprintln(os.Stderr, "verifharness: scenario setup failed:", err)
 			return []Tok{TW("setup"), TW("err")}
 		}
 		defer w.close()
@@ -250,6 +254,7 @@ func init() {
 			return "127.0.0.1:" + relay.port()
 		})
 		if err != nil {
+			fmt.Fprintln(os.Stderr, "verifharness: scenario setup failed:", err)
 			return []Tok{TW("setup"), TW("err")}
 		}
 		defer w.close()
